@@ -225,6 +225,10 @@ pub fn mislabel<S: RefOps + UniSch>(rec: &mut Rec, dmax: usize) {
         let mut v = Vec::new();
         for d in 3..=dmax.max(3) {
             v.push(KeyCfg::uni(d, d.min(4).max(3).min(d), 1, Some((0..=d.min(4).min(if S::NAME.starts_with("MAR") { d } else { d.min(4).max(3).min(d) })).collect())));
+            if d >= 4 {
+                // a bound list with gaps: 1 and 2 are never enforced
+                v.push(KeyCfg::uni(d, 4.min(d), 1, Some(vec![0, 3, 4.min(d)])));
+            }
         }
         v
     };
@@ -236,8 +240,11 @@ pub fn mislabel<S: RefOps + UniSch>(rec: &mut Rec, dmax: usize) {
         let zs: Vec<(&str, S::F)> = vec![("r1", rho::<S::F>(rec.seed, 1)), ("r2", rho::<S::F>(rec.seed, 2)), ("1", one), ("-1", -one), ("0", S::F::zero())];
         let mut todo = Vec::new();
         for deg_kind in ["zero", "const", "deg1", "deg2", "root-at-z"] {
+            // the commitment is made under a trimmed bound dp and shown under ANY other bound d, trimmed or not
+            // (bounds in the gaps of the trimmed list and one beyond the key's range included)
+            let shown: Vec<usize> = (0..=(if S::NAME == "IPA" { s + 1 } else { cfg.max + 1 })).collect();
             for dp in bounds.iter() {
-                for d in bounds.iter() {
+                for d in shown.iter() {
                     if d == dp {
                         continue;
                     }
@@ -269,7 +276,7 @@ pub fn mislabel<S: RefOps + UniSch>(rec: &mut Rec, dmax: usize) {
             };
             let p = uni_poly::<S>(&coeffs);
             let deg = S::degree(&p);
-            if deg > dp.min(d) || !admissible::<S>(&cfg, deg, Some(dp)) || !admissible::<S>(&cfg, deg, Some(d)) {
+            if deg > dp.min(d) || !admissible::<S>(&cfg, deg, Some(dp)) {
                 rec.class("skipped-inadmissible");
                 continue;
             }
@@ -288,7 +295,12 @@ pub fn mislabel<S: RefOps + UniSch>(rec: &mut Rec, dmax: usize) {
             let shown = LabeledCommitment::new("p".to_string(), c.comms[0].commitment().clone(), Some(d));
             let is_zero_poly = coeffs.iter().all(|c| c.is_zero());
             let diff = if d > dp { d - dp } else { dp - d };
+            let shown_served = admissible::<S>(&cfg, deg, Some(d));
             let degenerate = move || -> bool {
+                if !shown_served {
+                    // a bound the keys do not serve has no shift element: the relation cannot hold
+                    return false;
+                }
                 match S::NAME {
                     "MAR" | "MAR377" => v.is_zero(),
                     "SON" | "SON377" => is_zero_poly,
